@@ -76,6 +76,12 @@ def analyse(prop, repo=None, tier='quick', cg=None):
     repo = repo or Repo()
     ctx = Ctx(prop, repo, cg, tier)
     mod.run(ctx)
+    # INCLUDES: rule modules of other properties whose clauses are necessary conditions of this (broader) property as well; their
+    # obligations keep their own rule ids and keys (so known findings match) but are reported under this property
+    for inc in getattr(mod, 'INCLUDES', ()):
+        n0 = len(ctx.obs)
+        load_rule(inc).run(ctx)
+        ctx.analysed['included from %s: obligations' % inc] = len(ctx.obs) - n0
     if not ctx.obs: raise AnalysisError('%s: no obligations produced' % prop)
     return ctx, mod
 
@@ -100,7 +106,8 @@ def run_property(prop, tier='quick', replay=None, root=None, write_evidence=True
     except Exception:
         emit('ANALYSIS-ERROR property=%s internal error\n%s' % (prop, traceback.format_exc()))
         return 2, out
-    known = [k for k in load_known() if k['property'] == prop]
+    props = {prop} | set(getattr(mod, 'INCLUDES', ()))
+    known = [k for k in load_known() if k['property'] in props]
     known_keys = {k['key']: k for k in known if k.get('status') == 'known'}
     failed = [o for o in ctx.obs if not o.ok]
     if replay:
